@@ -501,7 +501,10 @@ func (w *inotify) handleEvent(inEvent *unix.InotifyEvent, buf *[65536]byte, offs
 		isDir := inEvent.Mask&unix.IN_ISDIR == unix.IN_ISDIR
 		/// New directory created: set up watch on it.
 		if isDir && ev.Has(Create) {
-			err := w.register(ev.Name, watch.flags, true)
+			// Only if it's still a directory: by now the name may have been
+			// taken by something else (the directory renamed again, and a
+			// file created in its place).
+			err := w.register(ev.Name, watch.flags|unix.IN_ONLYDIR, true)
 			if !w.sendError(err) {
 				return Event{}, false
 			}
